@@ -63,6 +63,11 @@ type c14Case struct {
 	Config    bool     `json:"config"` // system: WithSSHConfigFile given
 	Extra     []string `json:"extra"`
 	Netconf   bool     `json:"netconf"` // system stand-in: SSHArgs.NetconfConnection (what netconf.NewDriver sets)
+	// PriorKH (standard transport, strict): history in the same process — the SAME known-hosts path
+	// held this other content ("match" | "other" | "empty") when an earlier connection to the same
+	// server was attempted; the file was then rewritten.  The measured connection is judged by what
+	// the file holds NOW.
+	PriorKH string `json:"prior_kh,omitempty"`
 }
 
 func (c *c14Case) hasPw() bool  { return c.Auth == "password" || c.Auth == "both" }
@@ -150,6 +155,14 @@ func runC14(seed uint64, n int, tier string) {
 		}
 		cases = append(cases, genC14(r, tr, r.Chance(2, 3), r.Pick(c14KHs), r.Pick(c14Auths)))
 	}
+	// histories: the known-hosts file rewritten between two connections (both directions of the verdict)
+	for _, pk := range [][2]string{{"match", "other"}, {"match", "empty"}, {"other", "match"}, {"empty", "match"}, {"match", "revoked"}} {
+		for _, auth := range []string{"password", "key"} {
+			c := genC14(rng.Fork(), "standard", true, pk[1], auth)
+			c.PriorKH = pk[0]
+			cases = append(cases, c)
+		}
+	}
 	// files that will be exec'd are written before anything forks
 	_, _ = c14SharedScript(&c14Case{Transport: "system"})
 	_, _, _ = c14ClientKey()
@@ -226,6 +239,14 @@ type c14Server struct {
 	methods    []string // auth methods offered, in order of first appearance
 	passwords  []string // every password received (password method or keyboard-interactive answer)
 	open       []net.Conn
+}
+
+// resetLog forgets what earlier connections of a history did.
+func (s *c14Server) resetLog() {
+	s.mu.Lock()
+	defer s.mu.Unlock()
+	s.conns, s.handshakes = 0, 0
+	s.users, s.methods, s.passwords = nil, nil, nil
 }
 
 func (s *c14Server) port() int { return s.ln.Addr().(*net.TCPAddr).Port }
@@ -662,6 +683,26 @@ func runC14Case(id string, c *c14Case) {
 		}
 	}
 	cs.Line = c14Line(c, f, host, port)
+	if c.PriorKH != "" && c.Transport == "standard" && srv != nil {
+		cs.Kind += "/after-" + c.PriorKH
+		now, _ := os.ReadFile(f.kh)
+		prior := ""
+		switch c.PriorKH {
+		case "match":
+			prior = knownhosts.Line([]string{khAddr}, srv.signer.PublicKey()) + "\n"
+		case "other":
+			s, _ := c14NewSigner()
+			prior = knownhosts.Line([]string{khAddr}, s.PublicKey()) + "\n"
+		}
+		_ = os.WriteFile(f.kh, []byte(prior), 0o644)
+		if pd, perr := generic.NewDriver(host, c14Options(c, f, host, port)...); perr == nil {
+			if pd.Open() == nil {
+				_ = pd.Close()
+			}
+		}
+		srv.resetLog()
+		_ = os.WriteFile(f.kh, now, 0o644)
+	}
 
 	var openErr error
 	var d *generic.Driver
